@@ -7,6 +7,7 @@ import (
 	"math"
 	"os"
 	"path/filepath"
+	"seehuhn.de/go/pdf/graphics"
 	"strings"
 	"sync"
 	"testing"
@@ -575,6 +576,13 @@ func (d *c14Doc) show(rng *kit.Rand, pg *document.Page, page *c14Page, p *c14Pen
 		sh.glyphs = append(sh.glyphs, c14Glyph{c14Pair{g.GID, g.Text}, code, shared})
 	}
 	pg.TextSetFont(f.F, p.size)
+	if rng.Chance(1, 3) {
+		// any rendering mode that shows or clips to the glyphs (3 is invisible
+		// text, which the reader's Character callback skips by design)
+		mode := kit.Pick(rng, []graphics.TextRenderingMode{0, 1, 2, 4, 5, 6, 7})
+		pg.TextSetRenderingMode(mode)
+		d.c.R.Seen("text-rendering-modes", fmt.Sprint(int(mode)))
+	}
 	sh.opFrom = len(pg.Builder.Stream)
 	how := rng.Intn(8)
 	switch {
